@@ -297,6 +297,27 @@ Example C03_example_flatten_trace :
   = [[3; 14]; [2; 5]; [0; 0]; [0; 6]].
 Proof. vm_compute. reflexivity. Qed.
 
+(* write ports whose enable is a CONSTANT wire: the theorems make no case distinction
+   on the kind of the enable wire (its bit comes from gbase like any other), so a
+   port switched off at build time (Const 0) stays off after synthesis and a Const 1
+   port stays on: memory 0 keeps its initial word, memory 1 takes the written one *)
+Definition ex_en : netlist :=
+  {| wires := [ mkWire 1 2 KInput; mkWire 2 2 KInput; mkWire 3 1 (KConst 0); mkWire 4 1 (KConst 1);
+                mkWire 5 2 KOutput; mkWire 6 2 KOutput ];
+     nets := [ mkNet (OpMemWr 0) [1; 2; 3] 0; mkNet (OpMemWr 1) [1; 2; 4] 0;
+               mkNet (OpMemRd 0) [1] 5; mkNet (OpMemRd 1) [1] 6 ];
+     mems := [ mkMem 0 2 2 None; mkMem 1 2 2 None ] |}.
+
+Example C03_example_const_enable :
+  wfb ex_en = true /\ synth_okb ex_en = true
+  /\ map (fun v => map v [5; 6])
+         (fst (run ex_en 0 (init_state ex_en 0 [] [(0, [(1, 3)]); (1, [(1, 3)])]) [ (fun _ => 1); (fun _ => 1) ]))
+     = [[3; 3]; [3; 1]]
+  /\ map (fun bv => map (fun w => bits_val bv w (wnat ex_en w)) [5; 6])
+         (fst (grun ex_en (ginit ex_en [] [(0, [(1, 3)]); (1, [(1, 3)])]) [ (fun _ => 1); (fun _ => 1) ]))
+     = [[3; 3]; [3; 1]].
+Proof. vm_compute. repeat split; reflexivity. Qed.
+
 Example C03_example_sub : to_Z (basic_sub balg (of_Z 3 0) (of_Z 3 0)) = 0
   /\ to_Z (basic_sub balg (of_Z 3 2) (of_Z 3 5)) = 13.
 Proof. vm_compute. split; reflexivity. Qed.
